@@ -110,13 +110,22 @@ func (c *MustacheTemplate) GetVariable(variables map[string]string, name string)
 		return nil
 	}
 
+	// An exact match wins
+	if value, ok := variables[name]; ok {
+		return &value
+	}
+
+	// Otherwise take the smallest of the keys that match case-insensitively,
+	// so that the choice does not depend on the iteration order of the map
 	name = strings.ToLower(name)
 	var result *string = nil
+	resultName := ""
 
 	for propName, propValue := range variables {
-		if strings.ToLower(propName) == name {
-			result = &propValue
-			break
+		if strings.ToLower(propName) == name && (result == nil || propName < resultName) {
+			value := propValue
+			result = &value
+			resultName = propName
 		}
 	}
 
